@@ -291,6 +291,86 @@ impl BobState {
     }
 }
 
+/// Verification hooks: public access to the private frame codec and the initiator loop.
+#[cfg(feature = "verif-hooks")]
+pub mod verif {
+    use bytes::BytesMut;
+    use tokio::io::{AsyncRead, AsyncWrite};
+    use tokio_util::codec::{Decoder, Encoder};
+
+    pub use super::BobState;
+    use super::{Message, SyncCodec};
+    use crate::{
+        actor::SyncHandle,
+        net::{AbortReason, ConnectError},
+        sync::ProtocolMessage,
+        NamespaceId, SyncOutcome,
+    };
+
+    /// Maximum frame payload size accepted by the codec.
+    pub const MAX_MESSAGE_SIZE: usize = super::MAX_MESSAGE_SIZE;
+
+    /// Public mirror of the private frame enum.
+    #[derive(Debug, Clone)]
+    pub enum Frame {
+        /// Init message (sent by the dialing peer)
+        Init {
+            /// Namespace to sync
+            namespace: NamespaceId,
+            /// Initial message
+            message: ProtocolMessage,
+        },
+        /// Sync messages (sent by both peers)
+        Sync(ProtocolMessage),
+        /// Abort message (sent by the accepting peer to decline a request)
+        Abort {
+            /// Reason
+            reason: AbortReason,
+        },
+    }
+
+    impl From<Frame> for Message {
+        fn from(f: Frame) -> Message {
+            match f {
+                Frame::Init { namespace, message } => Message::Init { namespace, message },
+                Frame::Sync(m) => Message::Sync(m),
+                Frame::Abort { reason } => Message::Abort { reason },
+            }
+        }
+    }
+
+    impl From<Message> for Frame {
+        fn from(f: Message) -> Frame {
+            match f {
+                Message::Init { namespace, message } => Frame::Init { namespace, message },
+                Message::Sync(m) => Frame::Sync(m),
+                Message::Abort { reason } => Frame::Abort { reason },
+            }
+        }
+    }
+
+    /// The crate's frame encoder.
+    pub fn encode(frame: Frame, dst: &mut BytesMut) -> anyhow::Result<()> {
+        SyncCodec.encode(frame.into(), dst)
+    }
+
+    /// The crate's frame decoder.
+    pub fn decode(src: &mut BytesMut) -> anyhow::Result<Option<Frame>> {
+        Ok(SyncCodec.decode(src)?.map(Into::into))
+    }
+
+    /// The crate's initiator loop.
+    pub async fn run_alice<R: AsyncRead + Unpin, W: AsyncWrite + Unpin>(
+        writer: &mut W,
+        reader: &mut R,
+        handle: &SyncHandle,
+        namespace: NamespaceId,
+        peer: iroh::PublicKey,
+    ) -> Result<SyncOutcome, ConnectError> {
+        super::run_alice(writer, reader, handle, namespace, peer).await
+    }
+}
+
 #[cfg(test)]
 mod tests {
     use anyhow::Result;
